@@ -68,9 +68,23 @@ func c14Pair(c *engine.Case, name band.Name, b band.Band, s band.VerifBandSnapsh
 		return fmt.Sprintf("%s %s: network enabled %v, device %v", name, history, en, device)
 	}
 	var pls []lorawan.LinkADRReqPayload
-	if pn, site, v := engine.Try(func() { pls = b.GetLinkADRReqPayloadsForEnabledUplinkChannelIndices(device) }); pn {
+	// the device list is the caller's: it is handed over as a window into a larger buffer (spare
+	// capacity for every channel of the plan) and is the same list afterwards
+	arena := make([]int, len(device)+n+16)
+	for i := range arena {
+		arena[i] = -7
+	}
+	copy(arena, device)
+	handed := arena[:len(device)]
+	if pn, site, v := engine.Try(func() { pls = b.GetLinkADRReqPayloadsForEnabledUplinkChannelIndices(handed) }); pn {
 		c.Fail(fmt.Sprintf("planner-panics/%s/%s", plan, site), fmt.Sprintf("%s: planner panics: %v", desc(), v), nil)
 		return
+	}
+	for i, v := range arena {
+		if i < len(device) && v != device[i] || i >= len(device) && v != -7 {
+			c.Fail(fmt.Sprintf("planner-writes-device-list/%s", plan), fmt.Sprintf("%s: the device list handed to the planner (a slice with spare capacity) reads %v afterwards (position %d of its buffer changed)", desc(), arena[:len(device)], i), nil)
+			break
+		}
 	}
 	c.NonTrivial()
 	var cmds []spec.LinkADR
